@@ -1,9 +1,12 @@
 """C10 — SBML export is valid and import(export(model)) is the same model.
 
 Per generated model: real write_sbml_model -> validate_sbml_model -> read_sbml_model (path and string
-variants), one and two trips; the written document is parsed with xml.etree to get the identifiers and
-the flux-bound parameter references, which are compared with the Gallina codec (IO/SbmlId.v) and
-_create_bound model; the Coq-defined monitor (IO/SbmlCheck.v) is evaluated on full observations.
+variants), one and two trips; the written document is parsed with xml.etree into the `doc` record of
+IO/SbmlDoc.v and compared with the Gallina write_doc of the model (step 5); read_doc of that document is
+compared with the model cobrapy read back (step 6); inside the proved side condition sbml_ok the read-back
+must be norm(model) (step 7); identifiers and flux-bound parameter references are compared with the Gallina
+codec (IO/SbmlId.v) and _create_bound model; the Coq-defined monitor (IO/SbmlCheck.v) is evaluated on full
+observations.
 Third-party files: every SBML file shipped under src/cobra/data and tests/data is read with cobrapy and
 with an independent xml.etree reader of the fbc-v2 subset; stoichiometry, bounds, objective compared."""
 import bz2
@@ -28,16 +31,20 @@ PROP = "C10"
 VARIANTS = ["path", "string"]
 TMP = None
 HEADER = """From Coq Require Import ZArith QArith List Bool.
-From Cobra.IO Require Import Str JVal DictModel DictCheck SbmlId SbmlCheck.
+From Cobra.IO Require Import Str JVal DictModel DictCheck SbmlId SbmlDoc SbmlCheck.
+From Cobra.GPR Require Syntax.
 Import ListNotations.
 Open Scope Z_scope."""
-CODES = {1: "Gallina model of the SBML codec / bound parameters and the implementation differ",
+CODES = {1: "Gallina model of the SBML codec / bound parameters / written document / reader and the implementation differ",
          2: "writing or reading back failed", 12: "reading back failed: a lower bound is above the default upper bound",
          20: "identifier containing __<digits>__ is not restored by the id codec",
          21: "identifier decoding raises (chr() of a number outside the code point range)",
          3: "round trip changed the model content", 6: "round trip changed the raw LP in the solver",
          7: "the SBML validator reports errors on the written document / second trip changed the model",
          8: "second trip failed"}
+STEPS = "steps 1-3 = id codec / bound parameters, 4 = validator, 5 = write_doc vs the written document, 6 = read_doc of the " \
+        "written document vs the model read, 7 = round trip of the model vs norm (theorem instance / implementation), " \
+        "8 = duplicate SId accepted by the validator, 100+t / 200+t = first / second trip via "
 NS = {"s": "http://www.sbml.org/sbml/level3/version1/core", "f": "http://www.sbml.org/sbml/level3/version1/fbc/version2",
       "g": "http://www.sbml.org/sbml/level3/version1/groups/version1"}
 FBC = "{%s}" % NS["f"]
@@ -76,6 +83,15 @@ def sbml_domain(rng, spec):
             g["annotation"]["sbo"] = "SBO:0000243"
     if "sbo" in s["annotation"]:
         del s["annotation"]["sbo"]
+    if s["rxns"] and rng.random() < 0.06:                                  # known finding: 15 significant digits
+        r = rng.choice(s["rxns"])
+        k = rng.randrange(3)
+        if k == 0 and r["stoich"]:
+            r["stoich"][0][1] = rng.choice([1 / 3, -2 / 3, 0.1 + 0.2])
+        elif k == 1:
+            r["bounds"] = [r["bounds"][0], max(r["bounds"][1], 0) + rng.choice([1 / 3, 0.1 + 0.2])]
+        else:
+            r["objective"] = rng.choice([1 / 3, 2 / 3])
     s["compartments"] = {k: v for k, v in s["compartments"].items() if k != "unused" and k != ""}
     s["sort"] = False
     # groups of reactions / metabolites / genes
@@ -86,6 +102,8 @@ def sbml_domain(rng, spec):
             for x in s[key]:
                 if rng.random() < 0.4:
                     members.append([kind, x["id"]])
+        if s["genes"] and rng.random() < 0.08:
+            members.append(["genes", rng.choice(s["genes"])["id"]])      # known finding: cannot be read back
         s["groups"].append({"id": "grp%d" % gi, "name": rng.choice(["", "Group A"]),
                             "kind": rng.choice(["collection", "classification", "partonomy"]), "members": members})
     return s
@@ -103,10 +121,23 @@ def truth_table(r):
     return ",".join(genes) + "|" + "".join(bits)
 
 
+def rule_tree(node):
+    """GPR.body as a nested list: None | ["g", id] | ["and"/"or", [children]]"""
+    import ast
+    if node is None:
+        return None
+    if isinstance(node, ast.Name):
+        return ["g", str(node.id)]
+    if isinstance(node, ast.BoolOp):
+        return ["and" if isinstance(node.op, ast.And) else "or", [rule_tree(v) for v in node.values]]
+    return ["?", type(node).__name__]
+
+
 def observe(model):
     o = M.observe(model)
     for r, x in zip(model.reactions, o["rxns"]):
         x["rule"] = truth_table(r)           # gene rules as Boolean functions
+        x["rule_tree"] = rule_tree(r.gpr.body if r.gpr is not None else None)
         x["subsystem"] = ""                 # not among the attributes C10 lists
     for m in o["mets"]:
         m["_bound"] = ["q", 0, 1]
@@ -115,6 +146,10 @@ def observe(model):
         groups.append([str(g.id), ["l", [M.jv(g.name), M.jv(g.kind),
                                          ["l", sorted([M.jv(type(x).__name__ + ":" + x.id) for x in g.members],
                                                       key=repr)]]]])
+    kinds = {"Gene": 0, "Metabolite": 1, "Reaction": 2}
+    o["groups_full"] = [{"id": str(g.id), "name": None if g.name is None else str(g.name), "kind": str(g.kind),
+                         "members": sorted([kinds.get(type(x).__name__, 9), str(x.id)] for x in g.members)}
+                        for g in model.groups]
     # groups ride along in the model-level notes slot of the abstract record (key "\0groups")
     o["notes"] = o["notes"] + [["\x00groups", ["d", sorted(groups)]]]
     return o
@@ -135,6 +170,141 @@ def parse_written(xml_text):
         lb, ub = r.get(FBC + "lowerFluxBound"), r.get(FBC + "upperFluxBound")
         rx.append((r.get("id") or "", lb, params.get(lb), ub, params.get(ub)))
     return sp, gp, rx
+
+
+GRP = "{%s}" % NS["g"]
+
+
+def _xnum(v):
+    return float({"INF": "inf", "-INF": "-inf", "NaN": "nan"}.get(v, v))
+
+
+def _assoc(e):
+    tag = e.tag.replace(FBC, "")
+    if tag == "geneProductRef":
+        return ["g", e.get(FBC + "geneProduct") or ""]
+    if tag in ("and", "or"):
+        return [tag, [_assoc(c) for c in e]]
+    return ["?", tag]
+
+
+def parse_doc(xml_text):
+    """The written document as the `doc` record of coq/theories/IO/SbmlDoc.v (an unset attribute is "")."""
+    root = ET.fromstring(xml_text)
+    model = root.find("s:model", NS)
+    d = {"id": model.get("id") or "", "name": model.get("name") or ""}
+    d["comps"] = [[c.get("id") or "", c.get("name") or ""] for c in model.findall("s:listOfCompartments/s:compartment", NS)]
+    d["species"] = [{"id": x.get("id") or "", "name": x.get("name") or "", "comp": x.get("compartment") or "",
+                     "charge": None if x.get(FBC + "charge") is None else int(x.get(FBC + "charge")),
+                     "formula": x.get(FBC + "chemicalFormula") or "", "boundary": x.get("boundaryCondition") == "true"}
+                    for x in model.findall("s:listOfSpecies/s:species", NS)]
+    d["params"] = [[x.get("id") or "", M.num(_xnum(x.get("value", "NaN"))), x.get("constant") == "true"]
+                   for x in model.findall("s:listOfParameters/s:parameter", NS)]
+    d["rxns"] = []
+    for r in model.findall("s:listOfReactions/s:reaction", NS):
+        refs = {}
+        for side in ("Reactants", "Products"):
+            refs[side] = [[sr.get("species") or "", M.num(_xnum(sr.get("stoichiometry", "NaN")))]
+                          for sr in r.findall("s:listOf%s/s:speciesReference" % side, NS)]
+        gpa = r.find("f:geneProductAssociation", NS)
+        d["rxns"].append({"id": r.get("id") or "", "name": r.get("name") or "", "reversible": r.get("reversible") == "true",
+                          "fast": r.get("fast") == "true", "lb": r.get(FBC + "lowerFluxBound") or "",
+                          "ub": r.get(FBC + "upperFluxBound") or "", "reactants": refs["Reactants"],
+                          "products": refs["Products"], "assoc": None if gpa is None or len(gpa) == 0 else _assoc(gpa[0])})
+    d["gps"] = [[x.get(FBC + "id") or "", x.get(FBC + "name") or "", x.get(FBC + "label") or ""]
+                for x in model.findall("f:listOfGeneProducts/f:geneProduct", NS)]
+    objs = model.find("f:listOfObjectives", NS)
+    d["active"] = "" if objs is None else objs.get(FBC + "activeObjective") or ""
+    d["objs"] = []
+    for o in ([] if objs is None else objs.findall("f:objective", NS)):
+        d["objs"].append([o.get(FBC + "id") or "", o.get(FBC + "type") == "maximize",
+                          [[fo.get(FBC + "reaction") or "", M.num(_xnum(fo.get(FBC + "coefficient", "NaN")))]
+                           for fo in o.findall("f:listOfFluxObjectives/f:fluxObjective", NS)]])
+    d["groups"] = [{"id": g.get(GRP + "id") or "", "name": g.get(GRP + "name") or "", "kind": g.get(GRP + "kind"),
+                    "members": [m.get(GRP + "idRef") or "" for m in g.findall("g:listOfMembers/g:member", NS)]}
+                   for g in model.findall("g:listOfGroups/g:group", NS)]
+    return d
+
+
+def doc_representable(d):
+    nums = [p[1] for p in d["params"]] + [x[1] for r in d["rxns"] for x in r["reactants"] + r["products"]] + \
+           [x[1] for o in d["objs"] for x in o[2]]
+    if any(n[0] == "nan" for n in nums) or any(x[1][0] != "q" for r in d["rxns"] for x in r["reactants"] + r["products"]) \
+            or any(x[1][0] != "q" for o in d["objs"] for x in o[2]):
+        return "nan / infinite number where the document record has a rational"
+    if any(g["kind"] not in (None, "collection", "classification", "partonomy") for g in d["groups"]):
+        return "group kind"
+    return None
+
+
+KINDS = {"collection": "KCollection", "classification": "KClassification", "partonomy": "KPartonomy"}
+
+
+def c_bool(b):
+    return "true" if b else "false"
+
+
+def c_tree(t):
+    if t[0] == "g":
+        return "(Syntax.Gene %s)" % M.c_str(t[1])
+    if t[0] in ("and", "or"):
+        return "(Syntax.Bool Syntax.%s [%s])" % ("And" if t[0] == "and" else "Or", "; ".join(c_tree(x) for x in t[1]))
+    raise ValueError(t)
+
+
+def c_otree(t):
+    return "None" if t is None else "(Some %s)" % c_tree(t)
+
+
+def c_refs(l):
+    return "[" + "; ".join("(%s, %s)" % (M.c_str(k), M.c_q(v)) for k, v in l) + "]"
+
+
+def c_doc(d):
+    comps = "; ".join("(%s, %s)" % (M.c_str(a), M.c_str(b)) for a, b in d["comps"])
+    species = "; ".join("mkSp %s %s %s %s %s %s" % (
+        M.c_str(x["id"]), M.c_str(x["name"]), M.c_str(x["comp"]), "None" if x["charge"] is None else "(Some (%d))" % x["charge"],
+        M.c_str(x["formula"]), c_bool(x["boundary"])) for x in d["species"])
+    params = "; ".join("(%s, %s, %s)" % (M.c_str(i), M.c_eb(v), c_bool(k)) for i, v, k in d["params"])
+    rxns = "; ".join("mkDR %s %s %s %s %s %s %s %s %s" % (
+        M.c_str(r["id"]), M.c_str(r["name"]), c_bool(r["reversible"]), c_bool(r["fast"]), M.c_str(r["lb"]), M.c_str(r["ub"]),
+        c_refs(r["reactants"]), c_refs(r["products"]), c_otree(r["assoc"])) for r in d["rxns"])
+    gps = "; ".join("(%s, %s, %s)" % (M.c_str(a), M.c_str(b), M.c_str(c)) for a, b, c in d["gps"])
+    objs = "; ".join("(%s, %s, %s)" % (M.c_str(i), c_bool(mx), c_refs(fl)) for i, mx, fl in d["objs"])
+    groups = "; ".join("mkDG %s %s %s [%s]" % (
+        M.c_str(g["id"]), M.c_str(g["name"]), "None" if g["kind"] is None else "(Some %s)" % KINDS[g["kind"]],
+        "; ".join(M.c_str(x) for x in g["members"])) for g in d["groups"])
+    return "(mkDoc %s %s [%s] [%s] [%s] [%s] [%s] %s [%s] [%s])" % (
+        M.c_str(d["id"]), M.c_str(d["name"]), comps, species, params, rxns, gps, M.c_str(d["active"]), objs, groups)
+
+
+def smodel_representable(o):
+    if any(x["rule_tree"] is not None and "?" in json.dumps(x["rule_tree"]) for x in o["rxns"]):
+        return "rule tree with a node other than Name / BoolOp"
+    for g in o["groups_full"]:
+        if g["name"] is None or g["kind"] not in KINDS or any(k == 9 for k, _ in g["members"]):
+            return "group name None / kind / member type"
+    return M.representable(o)
+
+
+def c_smodel(o):
+    """an observation as the `smodel` record of coq/theories/IO/SbmlDoc.v"""
+    mets = "; ".join("mkMet %s %s %s %s %s %s %s %s" % (
+        M.c_str(m["id"]), M.c_str(m["name"]), M.c_ostr(m["compartment"]),
+        "None" if m["charge"] is None else "(Some (%d))" % m["charge"][1], M.c_ostr(m["formula"]), M.c_q(m["_bound"]),
+        M.c_items(m["notes"]), M.c_items(m["annotation"])) for m in o["mets"])
+    genes = "; ".join("mkGene %s %s %s %s" % (M.c_str(g["id"]), M.c_str(g["name"]), M.c_items(g["notes"]),
+                                              M.c_items(g["annotation"])) for g in o["genes"])
+    rxns = "; ".join("(mkRxn %s %s %s %s %s %s %s %s %s %s, %s)" % (
+        M.c_str(r["id"]), M.c_str(r["name"]), c_refs(r["stoich"]), M.c_eb(r["lb"]), M.c_eb(r["ub"]), M.c_str(r["rule"]),
+        M.c_q(r["objective"]), M.c_str(r["subsystem"]), M.c_items(r["notes"]), M.c_items(r["annotation"]),
+        c_otree(r["rule_tree"])) for r in o["rxns"])
+    comps = "; ".join("(%s, %s)" % (M.c_str(k), M.c_str(v)) for k, v in o["comps_private"])
+    groups = "; ".join("mkGroup %s %s %s [%s]" % (
+        M.c_str(g["id"]), M.c_str(g["name"]), KINDS[g["kind"]],
+        "; ".join("(%d, %s)" % (k, M.c_str(i)) for k, i in g["members"])) for g in o["groups_full"])
+    return "(mkSModel %s %s [%s] [%s] [%s] [%s] %s [%s])" % (
+        M.c_ostr(o["id"]), M.c_ostr(o["name"]), mets, rxns, genes, comps, c_bool(o["direction"] == "max"), groups)
 
 
 def codec_obs(kind, s):
@@ -161,7 +331,7 @@ def run_impl(spec, seed):
         model = M.build(spec)
         o0 = observe(model)
         out["obs0"] = o0
-        out["skip"] = M.representable(o0)
+        out["skip"] = smodel_representable(o0)
         ids = [(1, m.id) for m in model.metabolites] + [(2, r.id) for r in model.reactions] + \
               [(0, g.id) for g in model.genes] + [(3, g.id) for g in model.groups]
         ids += [(rng.randrange(4), rng.choice(EXTRA_IDS)) for _ in range(3)]
@@ -177,6 +347,7 @@ def run_impl(spec, seed):
             out["write_error"] = {"err": type(e).__name__, "msg": str(e)[:200]}
         if written is not None:
             sp, gp, rx = parse_written(written)
+            out["doc"] = parse_doc(written)
             out["written_ids"] = {"species": sp, "genes": gp, "reactions": [x[0] for x in rx]}
             import cobra.io.sbml as S
             exp = {"species": [S._f_specie_rev(m.id) for m in model.metabolites],
@@ -260,8 +431,22 @@ def case_term(spec, out, D):
         if t1 is None or t2 is None:
             continue
         trips.append("(%d, %s, %s)" % (tag, t1, t2))
-    return "(mkSCase %s true %s [%s] [%s] %d [%s])" % (cfg, obs0, "; ".join(ids), "; ".join(bounds), out["valid"],
-                                                       "; ".join(trips))
+    sm = D.ref("sm", "smodel", c_smodel(o0))
+    if "doc" in out:
+        written = "(Ok %s)" % D.ref("doc", "doc", c_doc(out["doc"])) if doc_representable(out["doc"]) is None else None
+    else:
+        written = M.c_err(out["write_error"]["err"])
+    readback = "None"
+    first = [r1 for tag, r1, r2 in out["trips"] if tag == 0]
+    if written is None:
+        written = "(Err EUnmodelled)"
+    elif first and "ok" in first[0]:
+        if smodel_representable(first[0]["ok"]) is None:
+            readback = "(Some (Ok %s))" % D.ref("sm", "smodel", c_smodel(first[0]["ok"]))
+    elif first and first[0].get("stage") == "read":
+        readback = "(Some (Err EOther))"
+    return "(mkSCase %s true %s [%s] [%s] %d [%s] %s %s %s)" % (
+        cfg, obs0, "; ".join(ids), "; ".join(bounds), out["valid"], "; ".join(trips), sm, written, readback)
 
 
 def evaluate(specs, seeds):
@@ -287,7 +472,8 @@ def diff_paths(a, b, path=""):
     if type(a) != type(b):
         return [path]
     if isinstance(a, dict):
-        return [p for k in a if k not in ("lp", "comps_private") for p in diff_paths(a[k], b.get(k), path + "/" + k)]
+        return [p for k in a if k not in ("lp", "comps_private", "rule_tree", "groups_full")
+                for p in diff_paths(a[k], b.get(k), path + "/" + k)]
     if isinstance(a, list):
         if len(a) != len(b):
             return [path]
@@ -295,11 +481,36 @@ def diff_paths(a, b, path=""):
     return [] if a == b else [path]
 
 
+def _f(n):
+    return float("-inf" if n[1] else "inf") if n[0] == "inf" else n[1] / n[2] if n[0] == "q" else float("nan")
+
+
+def lost_digits(o0, o1):
+    """every number of the reactions came back as float('%.15g' % x), and at least one of them changed"""
+    if len(o0["rxns"]) != len(o1["rxns"]):
+        return False
+    changed = False
+    for a, b in zip(o0["rxns"], o1["rxns"]):
+        pairs = [(a["lb"], b["lb"]), (a["ub"], b["ub"]), (a["objective"], b["objective"])]
+        if len(a["stoich"]) != len(b["stoich"]):
+            return False
+        pairs += [(x[1], y[1]) for x, y in zip(a["stoich"], b["stoich"])]
+        for x, y in pairs:
+            if float("%.15g" % _f(x)) != _f(y):
+                return False
+            changed = changed or _f(x) != _f(y)
+    return changed
+
+
 def cause_of(spec, out, step, code):
     """A label for the failure, computed from the implementation's observations (used in signatures)."""
     if step < 100:
         if code in (20, 21):
             return "id_with_escape_pattern"
+        if step == 3 and code == 2 and all(vlb is not None and vub is not None and float("%.15g" % _f(lb)) == _f(vlb)
+                                           and float("%.15g" % _f(ub)) == _f(vub)
+                                           for _, lb, ub, _, vlb, _, vub in out["bounds"]):
+            return "number_15_digits"
         return "codec_or_bounds"
     tag = step % 100
     t = [t for t in out["trips"] if t[0] == tag]
@@ -311,6 +522,8 @@ def cause_of(spec, out, step, code):
     if "err" in r1:
         if r1.get("stage") == "write" and any(m["compartment"] is None for m in spec["mets"]):
             return "write_fails_compartment_none"
+        if r1.get("stage") == "read" and any(k == "genes" for g in spec.get("groups", []) for k, _ in g["members"]):
+            return "group_with_gene_member"
         return "%s_%s" % (r1.get("stage"), r1["err"])
     if step >= 200:
         return "second_trip"
@@ -323,6 +536,9 @@ def cause_of(spec, out, step, code):
         atoms.append("id_with_escape_pattern")
         paths = {p for p in paths if not (p.endswith("/id") or "/stoich" in p or p.startswith("/notes") or "/genes" in p
                                            or p.endswith("/rule"))}
+    if lost_digits(out["obs0"], r1["ok"]):
+        atoms.append("number_15_digits")
+        paths = {p for p in paths if not p.startswith(("/rxns/#/stoich", "/rxns/#/lb", "/rxns/#/ub", "/rxns/#/objective"))}
     if "/mets/#/charge" in paths and all(
             (a["charge"] is None and b["charge"] == ["q", 0, 1]) or a["charge"] == b["charge"]
             for a, b in zip(out["obs0"]["mets"], r1["ok"]["mets"])):
@@ -352,7 +568,8 @@ def shrink(spec, seed, want):
             x = copy.deepcopy(cur); del x["groups"][i]; cands.append(x)
         cands = [c for c in cands if all(r["stoich"] for r in c["rxns"]) and c["id"] is not None and c["mets"]]
         for c in cands:
-            ids = {"reactions": {r["id"] for r in c["rxns"]}, "metabolites": {m["id"] for m in c["mets"]}}
+            ids = {"reactions": {r["id"] for r in c["rxns"]}, "metabolites": {m["id"] for m in c["mets"]},
+                   "genes": {g["id"] for g in c["genes"]}}
             for g in c.get("groups", []):
                 g["members"] = [m for m in g["members"] if m[1] in ids[m[0]]]
         if not cands:
@@ -527,7 +744,8 @@ def run(args, rep, info, broken, rng):
         for s, c in codes[i]:
             if c == 7 and s < 100:
                 cause = "validator:" + ("objective_without_flux_objectives" if any(
-                    "listOfFluxObjectives" in m for m in outs[i]["validator"]) else "other")
+                    "listOfFluxObjectives" in m for m in outs[i]["validator"]) else "duplicate_sid" if any(
+                    "Duplicate 'id'" in m for m in outs[i]["validator"]) else "other")
             else:
                 cause = cause_of(specs[i], outs[i], s, c)
             seen.setdefault((c, cause), []).append(i)
@@ -543,9 +761,9 @@ def run(args, rep, info, broken, rng):
                   "failing_steps": c2[0][:8], "n_cases_of_this_kind": len(seen[key]),
                   "exceptions": [(VARIANTS[t], r1.get("stage"), r1.get("err"), r1.get("msg")) for t, r1, r2 in o2[0]["trips"] if "err" in r1],
                   "validator_messages": o2[0]["validator"], "codec_observations": o2[0]["ids"][-6:],
-                  "how_to_read": "case = model spec (harness/io_models.py: build); steps 1-3 = id codec / bound parameters, "
-                                 "4 = validator, 100+t / 200+t = first / second trip via " + ",".join(VARIANTS),
-                  "theorem": "C10_sid_roundtrip / C10_bound_param_roundtrip / C10_read_bounds (coq/theories/Properties/C10.v)"}
+                  "how_to_read": "case = model spec (harness/io_models.py: build); " + STEPS + ",".join(VARIANTS),
+                  "theorem": "C10_sbml_doc_roundtrip / C10_gpr_assoc_roundtrip / C10_sid_roundtrip / C10_bound_param_roundtrip / "
+                             "C10_read_bounds (coq/theories/Properties/C10.v)"}
         rep.violation(sig, replay)
 
     tp_results, tp_problems = ([], []) if args.replay else third_party(args.tier)
@@ -563,26 +781,33 @@ def run(args, rep, info, broken, rng):
             "lb_above_default_ub": sum(any(r["bounds"][0] > s["cfg"][1] for r in s["rxns"]) for s in specs),
             "nondefault_cfg": sum(s["cfg"] != [-1000.0, 1000.0] for s in specs),
             "validator_errors": sum(1 for o in outs if o["valid"]),
-            "ids_checked": sum(len(o["ids"]) for o in outs), "bounds_checked": sum(len(o["bounds"]) for o in outs)}
+            "ids_checked": sum(len(o["ids"]) for o in outs), "bounds_checked": sum(len(o["bounds"]) for o in outs),
+            "documents_compared_with_write_doc": sum(1 for o in outs if "doc" in o and o["skip"] is None),
+            "gene_in_group": sum(any(k == "genes" for g in s.get("groups", []) for k, _ in g["members"]) for s in specs),
+            "rules_with_nesting": sum(any("(" in r["rule"] for r in s["rxns"]) for s in specs)}
     evidence = {
         "level": "proof",
         "coverage": {
             "obligations": info["obligations"], "discharged": info["discharged"], "checker_cmd": info["checker_cmd"],
             "trusted_base": K.TRUSTED_COMMON + [
-                "libsbml (document model, XML writer/reader, validator, infix parser of gene associations) is exercised, not modelled",
+                "libsbml: its effect on the modelled fields (SId check of setId, unset attribute = '', 15 significant digits, "
+                "normal form of the association tree) is modelled in IO/SbmlDoc.v and compared on every case; XML text, "
+                "notes/annotations and the validator are exercised, not modelled",
                 "str(int)/int(str) and chr/ord of CPython (parameters of the codec theorems)",
                 "xml.etree reader of the fbc-v2 subset in harness/c10.py", "swiglpk read-back of the GLPK problem"],
             "axioms_reported_by_Print_Assumptions": info["axioms"],
             "evaluations": len(specs), "distinct_nontrivial": len({json.dumps(s, sort_keys=True) for s in specs if s["rxns"]}),
             "rule": "one case = one generated model written with write_sbml_model, validated, read back via path and string, "
-                    "twice; ids and bound parameters of the written document compared with the Gallina codec",
+                    "twice; the written document (parsed with xml.etree) compared with write_doc, the model read back with "
+                    "read_doc of that document and, inside sbml_ok, with norm(model); ids and bound parameters compared with "
+                    "the Gallina codec",
             "samples": [specs[i] for i in ([n_corpus, len(specs) - 1] if len(specs) > n_corpus else [])][:2],
             "traces_validated_against_impl": len(specs) - n_fail, "disagreements_checked": n_fail,
             "exhaustive": False, "input_distribution": dist, "third_party_files": tp_results,
             "broken_obligations": broken,
         },
         "assumptions": ["libsbml and XML text are trusted", "f_replace=F_REPLACE (default) only; documents written without "
-                        "id replacement are not generated", "gene rules compared as truth tables"],
+                        "id replacement are not generated", "gene rules compared as truth tables (monitor) and as trees (write_doc / read_doc correspondence)"],
     }
     return rep.finish(evidence)
 
